@@ -85,7 +85,7 @@ class Lexer:
             logical _or_ tokens. By default, `or` and `||` are equivalent.
     """
 
-    key_pattern = r"[\u0080-\uFFFFa-zA-Z_][\u0080-\uFFFFa-zA-Z0-9_-]*"
+    key_pattern = r"[\u0080-\U0010FFFFa-zA-Z_][\u0080-\U0010FFFFa-zA-Z0-9_-]*"
 
     # `not` or !
     logical_not_pattern = r"(?:not\b)|!"
